@@ -111,11 +111,24 @@ func cmdGen(args []string) int {
 func cmdReplay(args []string) int {
 	fs := flag.NewFlagSet("replay", flag.ExitOnError)
 	file := fs.String("file", "", "")
+	deep := fs.Bool("deep", false, "debug: run the deep executor on the program without its snapshot faults")
 	fs.Parse(args)
 	rp, err := check.ReadReplay(*file)
 	if err != nil {
 		fmt.Fprintln(os.Stderr, "replay:", err)
 		return 2
+	}
+	if *deep {
+		s := check.Specs[rp.Prop]
+		q := check.StripSnapFaults(rp.Program)
+		res := s.Deep(rp.Seed, q)
+		small := check.Shrink(s, rp.Seed, rp.Program, rp.Violation.Sig, 20*time.Second)
+		fmt.Printf("shrunk:\n%s", small.String())
+		fmt.Printf("deep: images=%d\n", res.Images)
+		for _, v := range res.Viol {
+			fmt.Println("  ", v.String(), "SIG", v.Sig)
+		}
+		return 0
 	}
 	ok, vs := check.Reproduce(rp)
 	fmt.Printf("replay %s property=%s seed=%d\n%s", *file, rp.Prop, rp.Seed, rp.Program.String())
@@ -359,29 +372,29 @@ func cmdCheck(args []string) int {
 		samples = samples[:3]
 	}
 	cov := map[string]interface{}{
-		"evaluations":            agg.Runs,
-		"distinct_nontrivial":    len(distinct),
-		"rule":                   s.Rule,
-		"samples":                samples,
-		"runs_per_hour":          int(float64(agg.Runs) / searchWall * 3600),
-		"seeds_per_hour":         int(float64(agg.Runs) / searchWall * 3600),
-		"simulated_seconds":      float64(agg.SimNS) / 1e9,
-		"faults_fired":           agg.Faults,
-		"io_points_by_kind":      agg.IO,
-		"probes":                 agg.Probes,
-		"distinct_model_states":  len(states),
-		"distinct_schedules":     len(scheds),
-		"crash_images_judged":    agg.Images,
-		"inconclusive":           agg.Inconcl,
-		"aborted_runs":           agg.Aborted,
-		"scheduler_yields":       agg.Yields,
-		"scheduler_switches":     agg.Switches,
-		"workers":                nw,
-		"search_wall_s":          searchWall,
-		"known_findings_checked": kn,
+		"evaluations":                   agg.Runs,
+		"distinct_nontrivial":           len(distinct),
+		"rule":                          s.Rule,
+		"samples":                       samples,
+		"runs_per_hour":                 int(float64(agg.Runs) / searchWall * 3600),
+		"seeds_per_hour":                int(float64(agg.Runs) / searchWall * 3600),
+		"simulated_seconds":             float64(agg.SimNS) / 1e9,
+		"faults_fired":                  agg.Faults,
+		"io_points_by_kind":             agg.IO,
+		"probes":                        agg.Probes,
+		"distinct_model_states":         len(states),
+		"distinct_schedules":            len(scheds),
+		"crash_images_judged":           agg.Images,
+		"inconclusive":                  agg.Inconcl,
+		"aborted_runs":                  agg.Aborted,
+		"scheduler_yields":              agg.Yields,
+		"scheduler_switches":            agg.Switches,
+		"workers":                       nw,
+		"search_wall_s":                 searchWall,
+		"known_findings_checked":        kn,
 		"regression_witnesses_replayed": regressRun,
-		"components_real":        []string{"nutsdb (package nutsdb, ds/list, ds/set, ds/zset) built from /repo's working tree", "bwmarrin/snowflake", "xujiajun/utils/filesystem", "xujiajun/utils/strconv2", "Go runtime"},
-		"components_simulated":   []string{"file system + page cache (simos/simioutil)", "mmap (simmmap)", "wall clock (simtime)", "math/rand (simrand)", "choice of running goroutine at sync/io points (simsync + scheduler)"},
+		"components_real":               []string{"nutsdb (package nutsdb, ds/list, ds/set, ds/zset) built from /repo's working tree", "bwmarrin/snowflake", "xujiajun/utils/filesystem", "xujiajun/utils/strconv2", "Go runtime"},
+		"components_simulated":          []string{"file system + page cache (simos/simioutil)", "mmap (simmmap)", "wall clock (simtime)", "math/rand (simrand)", "choice of running goroutine at sync/io points (simsync + scheduler)"},
 	}
 	ev["coverage"] = cov
 	b, _ := json.MarshalIndent(ev, "", " ")
